@@ -339,11 +339,13 @@ class BitSet(BaseBitSet):
             del self.bits[newlength + 1:]
 
     def _zero_extra_bits(self, size):
+        # Zero every bit at or above position ``size``
         bits = self.bits
-        spill = size - ((len(bits) - 1) * 8)
-        if spill:
-            mask = 2 ** spill - 1
-            bits[-1] = bits[-1] & mask
+        full, spill = divmod(size, 8)
+        if full < len(bits):
+            bits[full] &= (1 << spill) - 1
+            for i in xrange(full + 1, len(bits)):
+                bits[i] = 0
 
     def _logic(self, obj, op, other):
         objbits = obj.bits
@@ -419,6 +421,8 @@ class BitSet(BaseBitSet):
             discard(n)
 
     def invert_update(self, size):
+        if size > len(self.bits) * 8:
+            self._resize(size)
         bits = self.bits
         for i in xrange(len(bits)):
             bits[i] = ~bits[i] & 0xFF
